@@ -196,7 +196,7 @@ impl Completion for Comp {
             use emit::event::ToEvent;
             let evt = span.to_event();
             self.st.record(self.id, false, &evt);
-            self.st.add_views(span_views(&span));
+            self.st.add_span_views(&span);
             self.st.add_span_name(span.name().to_string());
         }
     }
